@@ -4,8 +4,13 @@ set_option linter.unusedVariables false
 /-! # whole-program contexts: a program with an expression-shaped or a function-shaped hole -/
 namespace Never.Tc
 
+theorem nonEmptyUnit_app (fpre : FuncList) (f : Func) (fpost : FuncList) :
+    nonEmptyUnit (fpre.app (.cons f fpost)) = .ok () := by
+  cases fpre <;> rfl
+
 theorem check_eq (p : Prog) :
-    check p = globalEnv p.decls >>= fun Γ => declFuncs Γ p.funcs >>= fun q => tcBodies q.1 p.funcs q.2 := by
+    check p = globalEnv p.decls >>= fun Γ => nonEmptyUnit p.funcs >>= fun _ =>
+      declFuncs Γ p.funcs >>= fun q => tcBodies q.1 p.funcs q.2 := by
   simp only [check]
 
 /-- a program with one expression-shaped hole: the declarations, the top-level functions around
@@ -56,7 +61,7 @@ theorem ProgCtx.plug_error (P : ProgCtx) (Γ' : Env) (e : Expr) (d : Diag)
         have hx := frames_plug_error P.frames Γf Γ' e d henv he
         have hr := FuncHole.plug_error Γf s P.h _ d h3 hx
         rw [runEnv_plug Γ P.fpre P.fpost P.h default (plugFrames P.frames e)] at h2
-        exact run_error Γ P.fpre _ P.fpost Γf s d h2 hr
+        rw [nonEmptyUnit_app]; exact run_error Γ P.fpre _ P.fpost Γf s d h2 hr
 
 theorem ProgCtx.plug_prefix (P : ProgCtx) (e : Expr) (d : Diag)
     (henv : P.holeEnv = .error d) : check (P.plug e) = .error d := by
@@ -71,7 +76,7 @@ theorem ProgCtx.plug_prefix (P : ProgCtx) (e : Expr) (d : Diag)
     | error d' =>
       simp [h2] at henv; subst henv
       rw [runEnv_plug Γ P.fpre P.fpost P.h default (plugFrames P.frames e)] at h2
-      exact run_prefix Γ P.fpre _ P.fpost d' h2
+      rw [nonEmptyUnit_app]; exact run_prefix Γ P.fpre _ P.fpost d' h2
     | ok q =>
       obtain ⟨Γf, s⟩ := q
       simp only [h2, bind_ok] at henv
@@ -79,11 +84,11 @@ theorem ProgCtx.plug_prefix (P : ProgCtx) (e : Expr) (d : Diag)
       cases h3 : P.h.pre Γf s with
       | error d' =>
         simp [h3] at henv; subst henv
-        exact run_error Γ P.fpre _ P.fpost Γf s d' h2 (FuncHole.plug_prefix Γf s P.h _ d' h3)
+        rw [nonEmptyUnit_app]; exact run_error Γ P.fpre _ P.fpost Γf s d' h2 (FuncHole.plug_prefix Γf s P.h _ d' h3)
       | ok u =>
         simp only [h3, bind_ok] at henv
         have hx := frames_plug_prefix P.frames Γf e d henv
-        exact run_error Γ P.fpre _ P.fpost Γf s d h2 (FuncHole.plug_error Γf s P.h _ d h3 hx)
+        rw [nonEmptyUnit_app]; exact run_error Γ P.fpre _ P.fpost Γf s d h2 (FuncHole.plug_error Γf s P.h _ d h3 hx)
 
 /-- an expression that is rejected in every symbol table is rejected in every program context,
 whatever surrounds it (either by itself or because something before it already was) -/
@@ -147,7 +152,7 @@ theorem FuncCtx.plug_error (C : FuncCtx) (f : Func) (Γf : Env) (s : Sig) (d : D
     | error d' => simp [h1] at henv
     | ok Γ =>
       simp only [h1, bind_ok] at henv ⊢
-      exact run_error Γ fpre f fpost Γf s d henv hf
+      rw [nonEmptyUnit_app]; exact run_error Γ fpre f fpost Γf s d henv hf
   | nested P ln pre fpre fpost post =>
     simp only [FuncCtx.env] at henv
     cases h1 : P.holeEnv with
